@@ -1301,20 +1301,24 @@ impl ApiEndpointVersions {
                 ApiEndpointVersions::From(earliest),
             ) => u.matches(Some(&earliest)),
 
+            // A "from" range overlaps a "from-until" range if it starts at or
+            // before the start of that range (which is never empty: when both
+            // ends are equal it contains exactly that version) or else starts
+            // inside it.
             (
                 ApiEndpointVersions::From(earliest),
-                ApiEndpointVersions::FromUntil(OrderedVersionPair {
-                    earliest: _,
-                    until,
+                r @ ApiEndpointVersions::FromUntil(OrderedVersionPair {
+                    earliest: r_earliest,
+                    until: _,
                 }),
-            ) => earliest < until,
+            ) => earliest <= r_earliest || r.matches(Some(earliest)),
             (
-                ApiEndpointVersions::FromUntil(OrderedVersionPair {
-                    earliest: _,
-                    until,
+                r @ ApiEndpointVersions::FromUntil(OrderedVersionPair {
+                    earliest: r_earliest,
+                    until: _,
                 }),
                 ApiEndpointVersions::From(earliest),
-            ) => earliest < until,
+            ) => earliest <= r_earliest || r.matches(Some(earliest)),
 
             (
                 u @ ApiEndpointVersions::Until(_),
